@@ -29,6 +29,15 @@ type treeCtx struct {
 	root    *treechangeproto.RawTreeChangeWithId
 	written []content
 	n       int
+
+	// the owner's long-lived replica: its own storage, a tree object that lives through the whole history over
+	// an AclList that receives every accepted record incrementally (AddRawRecord). It gets every change of the
+	// other writers as transmitted raw bytes (AddRawChanges) and must decrypt all of them: this exercises the
+	// lazy key refresh of readKeysFromAclState on a live tree, which fresh trees never reach.
+	liveDb   anystore.DB
+	liveAcl  list.AclList
+	liveTree objecttree.ObjectTree
+	liveGot  map[string][]byte
 }
 
 type content struct {
@@ -45,6 +54,9 @@ func (h *hist) closeTree() {
 	}
 	if h.tree.db != nil {
 		h.tree.db.Close()
+	}
+	if h.tree.liveDb != nil {
+		h.tree.liveDb.Close()
 	}
 	os.RemoveAll(h.tree.dir)
 	h.tree = nil
@@ -87,7 +99,98 @@ func (h *hist) openTree(creator int) error {
 	if s, ok := t.st.(interface{ SetAddSeq(*atomic.Uint64) }); ok {
 		s.SetAddSeq(&atomic.Uint64{})
 	}
+	// live replica of the owner
+	t.liveDb, err = anystore.Open(ctx, filepath.Join(dir, "live"), nil)
+	if err != nil {
+		return err
+	}
+	hs2, err := headstorage.New(ctx, t.liveDb)
+	if err != nil {
+		return err
+	}
+	st2, err := objecttree.CreateStorage(ctx, t.root, hs2, t.liveDb)
+	if err != nil {
+		return err
+	}
+	if s, ok := st2.(interface{ SetAddSeq(*atomic.Uint64) }); ok {
+		s.SetAddSeq(&atomic.Uint64{})
+	}
+	t.liveAcl, err = h.buildView(h.accs[creator], true)
+	if err != nil {
+		return err
+	}
+	t.liveTree, err = objecttree.BuildObjectTree(st2, t.liveAcl)
+	if err != nil {
+		return err
+	}
+	t.liveGot = map[string][]byte{}
 	return nil
+}
+
+// liveSync hands the owner's live replica the raw bytes of freshly written changes and checks that it
+// reads every change written so far.
+func (h *hist) liveSync(res objecttree.AddResult) {
+	t := h.tree
+	ctx := context.Background()
+	if _, err := t.liveTree.AddRawChanges(ctx, objecttree.RawChangesPayload{NewHeads: res.Heads, RawChanges: res.RawChanges()}); err != nil {
+		h.violate("keys.tree-live", fmt.Sprintf("the owner's live replica rejects a transmitted change: %v", err))
+		return
+	}
+	h.liveCheck()
+}
+
+func (h *hist) liveCheck() {
+	t := h.tree
+	ierr := t.liveTree.IterateRoot(func(ch *objecttree.Change, decrypted []byte) (any, error) {
+		t.liveGot[ch.Id] = append([]byte{}, decrypted...)
+		return "m", nil
+	}, func(ch *objecttree.Change) bool { return true })
+	h.r.Count("tree.live-read")
+	if ierr != nil {
+		h.violate("keys.tree-live", fmt.Sprintf("the owner's live replica cannot iterate its tree after record %d: %v", len(h.raw)-1, ierr))
+		return
+	}
+	for _, c := range t.written {
+		if !bytes.Equal(t.liveGot[c.id], c.plain) {
+			h.violate("keys.tree-live", fmt.Sprintf("the owner's live replica does not read back a change written under generation %d", c.gen))
+			return
+		}
+	}
+}
+
+// liveWrite: the owner writes on its live tree (key of the current generation must have been picked up
+// lazily) and the change is transmitted to the shared storage.
+func (h *hist) liveWrite() {
+	t := h.tree
+	ctx := context.Background()
+	t.n++
+	plain := append(append([]byte{}, marker...), []byte(fmt.Sprintf("live-%d-%d-%d", h.id, t.n, h.r.Intn(1<<30)))...)
+	owner := h.owner()
+	res, err := t.liveTree.AddContent(ctx, objecttree.SignableChangeContent{Data: plain, Key: h.accs[owner].SignKey, ShouldBeEncrypted: true, DataType: "d", Timestamp: int64(1700000000 + t.n)})
+	h.r.Count("tree.live-add")
+	if err != nil || len(res.Added) != 1 {
+		h.violate("keys.tree-live", fmt.Sprintf("the owner cannot add encrypted content on its live tree after record %d: %v", len(h.raw)-1, err))
+		return
+	}
+	cur := len(h.gens) - 1
+	rc := &treechangeproto.RawTreeChange{}
+	tc := &treechangeproto.TreeChange{}
+	if rc.UnmarshalVT(res.Added[0].RawChange) != nil || tc.UnmarshalVT(rc.Payload) != nil {
+		h.r.Fatal("cannot decode a change")
+	}
+	if tc.ReadKeyId != h.gens[cur].recId || bytes.Contains(res.Added[0].RawChange, marker) {
+		h.violate("keys.tree-live", fmt.Sprintf("a change written on the live tree after record %d names a stale read key id or carries plaintext", len(h.raw)-1))
+	}
+	h.wrote[owner] = true
+	t.written = append(t.written, content{id: res.Added[0].Id, plain: plain, gen: cur})
+	ft, err := objecttree.BuildObjectTree(t.st, h.cviews[owner])
+	if err != nil {
+		h.violate("keys.tree", fmt.Sprintf("owner cannot build the tree over its view: %v", err))
+		return
+	}
+	if _, err := ft.AddRawChanges(ctx, objecttree.RawChangesPayload{NewHeads: res.Heads, RawChanges: res.RawChanges()}); err != nil {
+		h.violate("keys.tree-live", fmt.Sprintf("a fresh tree rejects the change transmitted from the live tree: %v", err))
+	}
 }
 
 // treeRound: a writer adds encrypted content under the current key generation; the raw bytes returned,
@@ -136,6 +239,10 @@ func (h *hist) treeRound() {
 	id := res.Added[0].Id
 	h.wrote[w] = true
 	t.written = append(t.written, content{id: id, plain: plain, gen: cur})
+	h.liveSync(res)
+	if h.r.Chance(40) {
+		h.liveWrite()
+	}
 	// transmitted bytes and stored bytes
 	stored, gerr := t.st.Get(ctx, id)
 	if gerr != nil {
